@@ -156,6 +156,108 @@ def check_walk(n, par, stamps, fail, W, O, store_cls):
     return cases
 
 
+def run_large(args):
+    """beyond the exhaustive bound: directed walker scenarios (long excluded runs next to older included commits) and
+    random DAGs with 7..14 commits (seeded), skewed clocks for merge-base / include-only walks, monotone clocks for walks
+    with exclusions"""
+    seed, count = args
+    _setup()
+    import random
+    from dulwich import graph as G
+    from dulwich import objects as O
+    from dulwich import walk as W
+    from dulwich.object_store import MemoryObjectStore
+    failures = []
+
+    def fail(what, detail):
+        if len(failures) < 6 and sum(1 for f in failures if f["what"] == what) < 2:
+            failures.append({"what": what, "detail": detail})
+    cases = 0
+    # directed: k excluded commits in a row (newer) while an included commit (older) is still queued
+    for k in range(1, 10):
+        # shape 1: chain E1..Ek and an unrelated older root X
+        par = {0: []}
+        stamps = [1]
+        for i in range(1, k + 1):
+            par[i] = [i - 1] if i > 1 else []
+            stamps.append(10 + i)
+        cases += check_walk_sets(k + 1, par, stamps, [(0,)], [k], fail, W, O, MemoryObjectStore, "excluded run of %d next to an older unrelated root" % k)
+        # shape 2: log feature ^main: base B(0), feature F1(1), F2(2) older than main M1..Mk
+        par = {0: [], 1: [0], 2: [1]}
+        stamps = [1, 2, 3]
+        for i in range(3, 3 + k):
+            par[i] = [i - 1] if i > 3 else [0]
+            stamps.append(10 + i)
+        cases += check_walk_sets(3 + k, par, stamps, [(2,)], [2 + k], fail, W, O, MemoryObjectStore, "feature ^main with %d newer commits on main" % k)
+    rnd = random.Random(seed)
+    for gi in range(count):
+        n = rnd.randint(7, 14)
+        par = {i: sorted(rnd.sample(range(i), min(i, rnd.choice([0, 1, 1, 1, 2, 2, 3])))) for i in range(n)}
+        mono = list(range(n))
+        for i in range(n):
+            if rnd.random() < 0.3 and i:
+                mono[i] = mono[i - 1]          # ties
+        skew = [rnd.randint(0, n) for _ in range(n)]
+        anc = closure(par, n)
+        # merge base / ancestry under skew
+        ids = [b"%040d" % i for i in range(n)]
+        commits = {}
+        for i in range(n):
+            c = O.Commit()
+            c._commit_time = skew[i]
+            commits[ids[i]] = c
+        repo = _Repo({ids[i]: [ids[p] for p in par[i]] for i in range(n)}, commits)
+        for _ in range(12):
+            a, b = rnd.sample(range(n), 2)
+            cases += 1
+            want = maximal(anc[a] & anc[b], anc)
+            got = G.find_merge_base(repo, [ids[a], ids[b]])
+            if sorted(got) != sorted(ids[x] for x in want):
+                fail("find_merge_base is not the set of maximal common ancestors (random DAG)", {"parents": {str(i): par[i] for i in range(n)}, "commit_times": skew, "c1": a, "c2": b, "got": [int(x) for x in got], "want": sorted(want)})
+            if G.can_fast_forward(repo, ids[a], ids[b]) != (a in anc[b]):
+                fail("can_fast_forward is not the ancestor test (random DAG)", {"parents": {str(i): par[i] for i in range(n)}, "commit_times": skew, "c1": a, "c2": b})
+        incs = [tuple(rnd.sample(range(n), rnd.choice([1, 1, 2])))for _ in range(3)]
+        cases += check_walk_sets(n, par, skew, incs, [], fail, W, O, MemoryObjectStore, "random DAG, skewed clocks, no exclusion")
+        for inc in incs:
+            excs = [e for e in rnd.sample(range(n), 3) if e not in inc]
+            cases += check_walk_sets(n, par, mono, [inc], excs, fail, W, O, MemoryObjectStore, "random DAG, monotone clocks, exclusions")
+    return cases, failures
+
+
+def check_walk_sets(n, par, stamps, includes, excludes, fail, W, O, store_cls, label):
+    anc = closure(par, n)
+    store = store_cls()
+    objs = []
+    for i in range(n):
+        c = O.Commit()
+        c.tree = b"4b825dc642cb6eb9a060e54bf8d69288fbee4904"
+        c.parents = [objs[p].id for p in par[i]]
+        c.author = c.committer = b"a <a@b>"
+        c.author_time = c.commit_time = stamps[i]
+        c.author_timezone = c.commit_timezone = 0
+        c.message = b"c%d" % i
+        store.add_object(c)
+        objs.append(c)
+    idx = {o.id: i for i, o in enumerate(objs)}
+    cases = 0
+    for inc in includes:
+        reach = set().union(*(anc[i] for i in inc))
+        for exc in ([None] + list(excludes)) if not excludes else list(excludes):
+            for order in ("date", "topo"):
+                cases += 1
+                want = reach - (anc[exc] if exc is not None else set())
+                kw = {"exclude": [objs[exc].id]} if exc is not None else {}
+                got = [idx[e.commit.id] for e in W.Walker(store, [objs[i].id for i in inc], order=order, **kw)]
+                if sorted(got) != sorted(want) or len(got) != len(set(got)):
+                    fail("walk does not yield exactly reachable(include) - reachable(exclude), each once (%s)" % label,
+                         {"parents": {str(i): par[i] for i in range(n)}, "commit_times": list(stamps), "include": list(inc), "exclude": exc, "order": order, "got": got, "want": sorted(want)})
+                elif order == "topo":
+                    pos = {c: k for k, c in enumerate(got)}
+                    if any(p in pos and pos[p] < pos[c] for c in got for p in par[c]):
+                        fail("topological walk yields a parent before its child (%s)" % label, {"parents": {str(i): par[i] for i in range(n)}, "commit_times": list(stamps), "got": got})
+    return cases
+
+
 def run_chunk(args):
     n, lo, hi, stamp_mode, do_walk = args
     _setup()
@@ -203,8 +305,11 @@ def main():
         bound = "all DAGs with <= 5 commits x all relative orders of commit times (ties included; all 541 weak orders for 5) x all query pairs/triples; walks on every 8th order"
     cases = 0
     failures = []
+    seed = int(os.environ.get("VERIF_SEED", "0"))
+    large = [(seed * 1000 + k, 20 if tier == "quick" else 150) for k in range(16)]
+    bound += "; beyond it: 18 directed walker scenarios (excluded runs of 1..9 commits next to older included commits) and %d seeded random DAGs with 7..14 commits (skewed clocks for merge bases and plain walks, monotone clocks with ties for walks with exclusions)" % sum(c for _s, c in large)
     with ProcessPoolExecutor(max_workers=min(16, os.cpu_count() or 1)) as ex:
-        for c, f in ex.map(run_chunk, jobs):
+        for c, f in itertools.chain(ex.map(run_chunk, jobs), ex.map(run_large, large)):
             cases += c
             for x in f:
                 if len(failures) < 10 and sum(1 for y in failures if y["what"] == x["what"]) < 3:
